@@ -779,6 +779,7 @@ pub fn gen_setup(rng: &mut Rng) -> Setup {
         vars,
         fns,
         builtins_disabled: rng.percent(20),
+        aging: if rng.percent(8) { *rng.pick(&[40usize, 150, 300]) } else { 0 },
     }
 }
 
